@@ -202,7 +202,14 @@ def r3_skip_whitelist(ctx):
             return False
         if isinstance(v, ast.Call):
             d = dotted(v.func) or ''
-            return d.startswith('self.') and d[5:] in chain_names
+            if d.startswith('self.'):
+                return d[5:] in chain_names
+            # a record / tuple that carries the body next to other fields (`Loaded(path, body)`); one with None in a
+            # field is the "no body" outcome
+            parts = list(v.args) + [k.value for k in v.keywords]
+            return isinstance(v.func, ast.Name) and any(_is_body(f, p_, depth + 1) for p_ in parts) and not any(isinstance(p_, ast.Constant) and p_.value is None for p_ in parts)
+        if isinstance(v, ast.Tuple):
+            return any(_is_body(f, p_, depth + 1) for p_ in v.elts) and not any(isinstance(p_, ast.Constant) and p_.value is None for p_ in v.elts)
         if isinstance(v, ast.Name):
             defs = [a.value for a in walk_local(f.node) if isinstance(a, ast.Assign) and any(isinstance(t, ast.Name) and t.id == v.id for t in a.targets)]
             return bool(defs) and all(_is_body(f, d, depth + 1) for d in defs)
